@@ -74,8 +74,10 @@ where
     }
 
     fn call(&mut self, req: Req) -> Self::Future {
-        // Clone the service for the spawned task
-        let mut service = self.inner.clone();
+        // Call the instance that was driven to readiness by poll_ready and leave a
+        // fresh clone behind (a clone has not been polled ready)
+        let clone = self.inner.clone();
+        let mut service = std::mem::replace(&mut self.inner, clone);
         let (tx, rx) = oneshot::channel();
 
         // Spawn the request processing on the executor
